@@ -24,6 +24,19 @@ Spaces (DESIGN.md section 4, C09); everything listed is enumerated completely, n
              requested ranges == radix ranges, reachable tuples == all tuples, the three return kinds mutually consistent,
              matrix symplectic, to_int_tuple(matrix) == answers.
   randseed : rand_SpF2(n, kind, seed) for n = 1..10 and a few integer seeds (generic atoms): digits in range, kinds consistent.
+  closure  : n = 3..6 (8 thorough): matrices that are not literal from_int_tuple outputs - M^T (handed over as the Fortran-ordered
+             view), inverse(M) (handed over exactly as returned) and all ordered products M_i M_j mod 2 of the alphabet matrices:
+             to_int_tuple in range and injective, from_int_tuple(to_int_tuple(X)) == X, inverse two-sided; and for each of them
+             (and for every element of the brute-force group, n <= 2) to_int_tuple / inverse / transvection on the same values
+             in the layouts C, Fortran, every-second-element view, offset window of a Fortran array, negative strides == the
+             C-contiguous call;
+             find_transvection on strided column views == on contiguous copies.
+  forms    : from_int_tuple with the digits as list / int64 array / int32 array / tuple of np.int64 / uint8 array / tuple of
+             np.uint8 (uint8 while every radix <= 256, n <= 4) == from_int_tuple(tuple of int): all tuples n <= 2, alphabet
+             n = 3..6; get_number(n as np.int64 / np.int32 / np.uint8 / float, kind upper / title case / np.str_, keyword and
+             positional) == the plain call. A precondition assert on such an undocumented form is counted, not reported.
+  leaves   : vacuity guard (finalize): the ordered pairs of every n >= 2 reach all 9 leaves of the Lemma-2 case distinction
+             of find_transvection (labels computed from the inputs alone), n = 1 its 2 leaves.
 Oracle: plain integer arithmetic mod 2 (numpy int64), brute-force group for n <= 2, closed product formula for the order.
 Everything is exact arithmetic over F2: there is no tolerance anywhere in this check.
 """
@@ -40,7 +53,8 @@ LEVEL = 'model_checking'
 RULE = ('state = one input point of a completely enumerated finite domain (a mixed-radix tuple, a group element, an ordered pair of '
         'non-zero vectors, a (vector stack, h) pair, one sequence of answers of the stubbed random.Random, an integer of a bit width); '
         'transition = one call of from_int_tuple / to_int_tuple / inverse / find_transvection / transvection / rand_SpF2 / get_number '
-        'compared with integer arithmetic mod 2; trace = one tuple (or matrix) taken through from -> symplectic test -> to -> inverse '
+        'compared with integer arithmetic mod 2 (plus: the same matrix values in five memory layouts, the same digits in seven container / '
+        'digit types, transposes / inverses / pairwise products of the alphabet matrices as to_int_tuple inputs); trace = one tuple (or matrix) taken through from -> symplectic test -> to -> inverse '
         'in lock-step; outcome = the returned matrix / transvection pair; non-trivial = not the identity matrix / not the zero pair. '
         'Whole-domain invariants (pairwise distinct images, count == group order, image set == brute-force group for n<=2) inside the '
         'n<=2 work units and, for n=3 and the structured alphabet, across workers in finalize.')
@@ -49,7 +63,11 @@ ASSUMPTIONS = [
     '|Sp(2n,F2)| = 2^(n^2) prod_{i<=n} (4^i - 1) is taken from the literature; for n <= 2 it is re-derived by brute-force filtering',
     'a set of N = |G| pairwise distinct elements of G is all of G (n = 3: surjectivity follows from counting)',
     'tuples outside the mixed-radix ranges and non-symplectic matrices are outside the domain of from_int_tuple / to_int_tuple',
-    'n >= 4 is covered on the structured alphabet only (zero/max/single-position sweeps/atoms), not exhaustively',
+    'n >= 4 is covered on the structured alphabet only (zero/max/single-position sweeps/atoms), not exhaustively; to_int_tuple additionally '
+    'sees the transposes, inverses and pairwise products of the alphabet matrices (n <= 6, 8 thorough)',
+    'memory layouts: C, Fortran, step-2 view, offset window of a Fortran array, doubly reversed view (negative strides); other dtypes than uint8 are outside the documented domain',
+    'list / numpy containers and numpy scalar digits are not promised by the docstrings (tuple[int]): if the library accepts them the result '
+    'must equal the tuple-of-int call, a precondition assert on them is a counted rejection',
 ]
 CHUNK = 1
 
@@ -112,6 +130,13 @@ def ref_transvection(x, h):
     return (x + ref_ip(x, h)[..., None] * h) % 2
 
 
+def clear_spf2_caches(sp):
+    for f in list(vars(sp).values()):
+        cc = getattr(f, 'cache_clear', None)
+        if callable(cc):
+            cc()
+
+
 def all_vectors(n):
     return np.array(list(itertools.product([0, 1], repeat=2 * n)), dtype=np.uint8)
 
@@ -150,6 +175,28 @@ def transv_branch(v0, v1, n):
         i = both[0]
         return 'common_pair_same' if (v0[i] == v1[i] and v0[i + n] == v1[i + n]) else 'common_pair_diff'
     return 'disjoint_support'
+
+
+def transv_subbranch(v0, v1, n):
+    """every leaf of the Lemma-2 case distinction (the coarse label of transv_branch refined by the form of the pair that
+    decides the inner if): used for the vacuity guard 'all leaves are reached' only, computed from the inputs alone"""
+    br = transv_branch(v0, v1, n)
+    s0 = (v0[:n] | v0[n:]).astype(bool)
+    s1 = (v1[:n] | v1[n:]).astype(bool)
+    if br == 'common_pair_same':
+        i = np.nonzero(s0 & s1)[0][0]
+        return br + ('/pair_11' if v0[i] == v0[i + n] else '/pair_01_or_10')
+    if br == 'disjoint_support':
+        i = np.nonzero(s0 & ~s1)[0][0]
+        j = np.nonzero(~s0 & s1)[0][0]
+        return br + ('/v0_11' if v0[i] == v0[i + n] else '/v0_01_or_10') + ('/v1_11' if v1[j] == v1[j + n] else '/v1_01_or_10')
+    return br
+
+
+TRANSV_LEAVES = {1: ['equal', 'ip1']}
+for _n in range(2, 8):
+    TRANSV_LEAVES[_n] = ['equal', 'ip1', 'common_pair_diff', 'common_pair_same/pair_11', 'common_pair_same/pair_01_or_10'] + [
+        'disjoint_support/v0_%s/v1_%s' % (a, b) for a in ('11', '01_or_10') for b in ('11', '01_or_10')]
 
 
 # ------------------------------------------------------------------ the per-tuple lock-step check
@@ -254,6 +301,117 @@ def whole_domain_invariants(numqi, out, n, seen, n_tuples):
             _viol(out, 'tuples/from_int_tuple/outside_group', '%d images are not in the brute-force group' % len(extra), n=n, first_int_tuple=list(extra[0]))
 
 
+# ------------------------------------------------------------------ matrices that are not literal from_int_tuple outputs, in every memory layout
+LAYOUTS = ('C', 'F', 'strided', 'offset_view', 'negative_strides')
+
+
+def relayout(X, how):
+    """the same uint8 matrix in another memory layout (values identical; only strides / base pointer differ)"""
+    X = np.asarray(X, dtype=np.uint8)
+    if how == 'C':
+        return np.ascontiguousarray(X)
+    if how == 'F':
+        return np.asfortranarray(X)
+    if how == 'strided':       # every second row and column of a garbage-filled array twice the size
+        big = np.full((2 * X.shape[0], 2 * X.shape[1]), 1, dtype=np.uint8)
+        big[::2, ::2] = X
+        return big[::2, ::2]
+    if how == 'negative_strides':
+        return np.ascontiguousarray(X[::-1, ::-1])[::-1, ::-1]
+    assert how == 'offset_view'  # a window in the middle of a larger Fortran-ordered array (non-zero offset, non-contiguous)
+    big = np.full((X.shape[0] + 3, X.shape[1] + 2), 1, dtype=np.uint8, order='F')
+    big[2:2 + X.shape[0], 1:1 + X.shape[1]] = X
+    return big[2:2 + X.shape[0], 1:1 + X.shape[1]]
+
+
+def check_matrix(numqi, out, n, X, site, what, seen=None):
+    """X: symplectic (2n,2n) uint8 matrix in *some* memory layout (passed to numqi as it is). to_int_tuple(X) in range,
+    independent of the memory layout, from_int_tuple(to_int_tuple(X)) == X, inverse(X) two-sided and layout-independent;
+    seen: dict tuple -> packed matrix for the injectivity of to_int_tuple over the matrices of one case"""
+    sp = numqi.group.spf2
+    bases = ref_bases(n)
+    eye = np.eye(2 * n, dtype=np.int64)
+    Xc = np.ascontiguousarray(X)
+    X64 = Xc.astype(np.int64)
+    out.state()
+    out.trans()
+    try:
+        t = core.pure_call(out, 'pure/to_int_tuple', sp.to_int_tuple, X)
+    except Exception as e:
+        _viol(out, '%s/to_int_tuple/%s' % (site, type(e).__name__), 'to_int_tuple raised %r on a symplectic matrix (%s)' % (e, what), n=n, matrix=Xc, origin=what)
+        return None
+    ok = isinstance(t, tuple) and len(t) == 2 * n and all(float(d) == int(d) and 0 <= int(d) < b for d, b in zip(t, bases))
+    if not ok:
+        _viol(out, '%s/to_int_tuple/out_of_range' % site, 'to_int_tuple(X) = %r is not a tuple inside the radix ranges %s (%s)' % (t, list(bases), what), n=n, matrix=Xc, origin=what)
+        return None
+    ti = tuple(int(d) for d in t)
+    out.count('closure_matrices')
+    out.outcome(b'X%d:' % n + pack(Xc), nontrivial=not np.array_equal(X64, eye), pre_digested=True)
+    if seen is not None:
+        k = pack(Xc)
+        if ti in seen and seen[ti] != k:
+            _viol(out, '%s/to_int_tuple/collision' % site, 'two distinct symplectic matrices get the same tuple %s' % (list(ti),), n=n, matrix=Xc, origin=what)
+        seen.setdefault(ti, k)
+    out.trans()
+    try:
+        M2 = sp.from_int_tuple(t)   # exactly the object to_int_tuple returned
+        if not (valid_matrix(M2, n) and np.array_equal(M2, Xc)):
+            _viol(out, '%s/from_int_tuple/not_inverse_of_to_int_tuple' % site, 'from_int_tuple(to_int_tuple(X)) != X (%s)' % what, n=n, matrix=Xc, int_tuple=list(ti), got=M2, origin=what)
+    except Exception as e:
+        _viol(out, '%s/from_int_tuple/%s' % (site, type(e).__name__), 'from_int_tuple raised %r on to_int_tuple(X) (%s)' % (e, what), n=n, matrix=Xc, int_tuple=list(ti), origin=what)
+    out.trans()
+    try:
+        Xi = core.pure_call(out, 'pure/inverse', sp.inverse, X)
+        Xi64 = np.asarray(Xi).astype(np.int64)
+        if not (Xi64.shape == X64.shape and np.array_equal((Xi64 @ X64) % 2, eye) and np.array_equal((X64 @ Xi64) % 2, eye)):
+            _viol(out, '%s/inverse/not_two_sided' % site, 'inverse(X) is not a two-sided inverse (%s)' % what, n=n, matrix=Xc, inverse=Xi, origin=what)
+    except Exception as e:
+        _viol(out, '%s/inverse/%s' % (site, type(e).__name__), 'inverse raised %r on a symplectic matrix (%s)' % (e, what), n=n, matrix=Xc, origin=what)
+    out.trace()
+    return ti
+
+
+def check_layouts(numqi, out, n, Xc, ti, site, what):
+    """to_int_tuple / inverse / transvection on the same values in every other memory layout == the C-contiguous call"""
+    sp = numqi.group.spf2
+    h = Xc[-1].copy()   # a non-zero vector (a row of an invertible matrix)
+    want_inv = np.ascontiguousarray(sp.inverse(Xc))
+    want_tv = ref_transvection(Xc, np.broadcast_to(h, Xc.shape))
+    for how in LAYOUTS:
+        Y = relayout(Xc, how)
+        assert np.array_equal(Y, Xc)
+        out.trans(3)
+        out.count('layout_calls/' + how)
+        try:
+            t2 = core.pure_call(out, 'pure/to_int_tuple', sp.to_int_tuple, Y)
+            inv2 = core.pure_call(out, 'pure/inverse', sp.inverse, Y)
+            tv2 = core.pure_call(out, 'pure/transvection', sp.transvection, Y, h)
+        except Exception as e:
+            _viol(out, '%s/layout/%s' % (site, type(e).__name__), 'raised %r on a %s matrix (%s)' % (e, how, what), n=n, matrix=Xc, layout=how, origin=what)
+            continue
+        if not (isinstance(t2, tuple) and tuple(int(d) for d in t2) == ti):
+            _viol(out, '%s/to_int_tuple/depends_on_memory_layout' % site, 'to_int_tuple of the same matrix in layout %s = %s, first call: %s (%s)' % (how, list(t2), list(ti), what), n=n, matrix=Xc, layout=how, origin=what)
+        if not np.array_equal(inv2, want_inv):
+            _viol(out, '%s/inverse/depends_on_memory_layout' % site, 'inverse of the same matrix in layout %s differs from the C-contiguous call (%s)' % (how, what), n=n, matrix=Xc, layout=how, origin=what)
+        if not (tv2.shape == Xc.shape and np.array_equal(tv2, want_tv)):
+            _viol(out, '%s/transvection/depends_on_memory_layout' % site, 'transvection of the rows of a matrix in layout %s differs from row-wise x+<x,h>h (%s)' % (how, what), n=n, matrix=Xc, h=h, layout=how, origin=what)
+
+
+def closure_alphabet(numqi, out, n, G, seed):
+    """the matrices of the structured tuple alphabet (those that from_int_tuple maps to a valid symplectic matrix)"""
+    mats = []
+    for t in big_alphabet(n, G, seed, None):
+        try:
+            M = numqi.group.spf2.from_int_tuple(tuple(t))
+        except Exception:
+            continue   # reported by the 'big' cases
+        if valid_matrix(M, n):
+            a, b = is_symplectic_batch(M.astype(np.int64)[None], n)
+            if a[0] and b[0]:
+                mats.append((t, M))
+    return mats
+
+
 # ------------------------------------------------------------------ case lists
 def big_alphabet(n, G, seed, nsweep):
     """structured alphabet for n >= 3: list of ('struct', tuples) ; sweeps are separate cases"""
@@ -331,6 +489,17 @@ def build_cases(tier, seed):
             for bg in ('zero', 'max'):
                 for lo in range(0, bases[pos], 512):
                     cases.append({'kind': 'big', 'n': n, 'sub': 'sweep', 'pos': pos, 'bg': bg, 'lo': lo, 'hi': min(lo + 512, bases[pos])})
+    # ---- closure: transposes / inverses / pairwise products of the alphabet matrices, every memory layout
+    cl_n = list(range(3, 9 if thorough else 7))
+    info['closure'] = {'n': [cl_n[0], cl_n[-1]], 'matrices': 'M^T, inverse(M), M_i M_j mod 2 over the structured alphabet (2+4n+G tuples)', 'layouts': list(LAYOUTS)}
+    for n in range(1, 7):
+        cases.append({'kind': 'forms', 'n': n, 'G': G})
+    info['forms'] = {'n': [1, 6], 'containers': ['list', 'int64 / int32 array', 'tuple of np.int64', 'uint8 array / tuple of np.uint8 (n <= 4)'], 'tuples': 'all for n <= 2, structured alphabet for n >= 3'}
+    for n in cl_n:
+        cases.append({'kind': 'closure', 'n': n, 'G': G, 'part': 'unary'})
+        K = 8
+        for k in range(K):
+            cases.append({'kind': 'closure', 'n': n, 'G': G, 'part': 'prod', 'K': K, 'k': k})
     if thorough:
         b3 = ref_bases(3)
         for p in itertools.product(range(b3[0]), range(b3[1]), range(b3[2])):
@@ -404,6 +573,31 @@ def run_case(case, out, env):
                 out.check(ref.sp_order(n) == prod(ref_bases(n)), 'number/reference/self_consistency', 'reference bases do not multiply to the group order', n=n)
             if 'coset' in got:
                 out.check(tuple(int(x) for x in got['coset']) == ref_coset(n), 'number/get_number/coset', 'get_number(%d,"coset") = %s, expected %s' % (n, got['coset'], ref_coset(n)), n=n)
+            # argument forms the function normalises itself (n = int(n), kind = str(kind).lower()): same answer as the plain call
+            for nform, nconv in (('np_int64', np.int64), ('np_int32', np.int32), ('np_uint8', np.uint8), ('float', float)):
+                for k in ('base', 'order', 'coset'):
+                    for kform, kconv in (('upper', str.upper), ('title', str.title), ('np_str', np.str_)):
+                        if k not in got:
+                            continue
+                        out.trans()
+                        out.count('number_forms')
+                        try:
+                            # two histories: warm (the plain call above filled the lru_cache; 2.0 / np.int64(2) hash like 2 and would
+                            # be answered from it) and cold (cache emptied: the form itself is computed, then the plain call follows it)
+                            g3 = sp.get_number(nconv(n), kconv(k))   # warm, kind given positionally
+                            clear_spf2_caches(sp)
+                            g2 = sp.get_number(nconv(n), kind=kconv(k))
+                            g4 = sp.get_number(n, kind=k)
+                            out.check(type(g4) is type(got[k]) and g4 == got[k], 'number/get_number/forms/plain_call_after_form_differs',
+                                      'get_number(%d, %r) = %s after get_number(%s(%d), %r) on an empty cache, %s before' % (n, k, g4, nform, n, kconv(k), got[k]), n=n, kind=k, n_form=nform, kind_form=kform)
+                        except Exception as e:
+                            if core.is_precondition_assert(e):   # the docstring promises an int and the three lower-case kinds only
+                                out.count('rejected_by_precondition/number_forms')
+                                continue
+                            _viol(out, 'number/get_number/forms/%s' % type(e).__name__, 'get_number(%s(%d), %r) raised %r' % (nform, n, kconv(k), e), n=n, kind=k, n_form=nform, kind_form=kform)
+                            continue
+                        out.check(type(g2) is type(got[k]) and g2 == got[k] and g3 == got[k], 'number/get_number/forms/ne_plain_call',
+                                  'get_number(%s(%d), %r) = %s, get_number(%d, %r) = %s' % (nform, n, kconv(k), g2, n, k, got[k]), n=n, kind=k, n_form=nform, kind_form=kform)
             out.outcome((n, repr(got)), nontrivial=True)
             out.trace()
         # the closed formula against brute force where brute force is possible
@@ -489,6 +683,7 @@ def run_case(case, out, env):
             Mm = M.astype(np.int64)
             if not (Mi.shape == Mm.shape and np.array_equal((Mi @ Mm) % 2, eye) and np.array_equal((Mm @ Mi) % 2, eye)):
                 _viol(out, 'group/inverse/not_two_sided', 'inverse(M) is not a two-sided inverse', n=n, matrix=M, inverse=Mi)
+            check_layouts(numqi, out, n, np.ascontiguousarray(M, dtype=np.uint8), t, 'group', 'element of the brute-force group')
             out.outcome((n, t), nontrivial=not np.array_equal(Mm, eye))
             out.trace()
         out.check(len(seen) == len(G) or out.n_violations > 0, 'group/to_int_tuple/count', 'number of distinct tuples %d != group size %d' % (len(seen), len(G)), n=n)
@@ -497,6 +692,7 @@ def run_case(case, out, env):
         n = case['n']
         V = all_vectors(n)[1:]
         V64 = V.astype(np.int64)
+        leaves = {}
         for i0 in range(case['lo'], case['hi']):
             v0 = V[i0]
             H = np.zeros((len(V), 2, 2 * n), dtype=np.int64)
@@ -505,6 +701,8 @@ def run_case(case, out, env):
                 v1 = V[i1]
                 out.state()
                 out.trans()
+                leaf = transv_subbranch(v0, v1, n)
+                leaves[leaf] = leaves.get(leaf, 0) + 1
                 try:
                     h = core.pure_call(out, 'pure/find_transvection', sp.find_transvection, v0.copy(), v1.copy())
                 except Exception as e:
@@ -533,6 +731,9 @@ def run_case(case, out, env):
                               n=n, v0=v0, v1=V[i1], h0=H[i1, 0], h1=H[i1, 1])
             if len(bad) > 10:
                 out.count('transv_not_mapped_more', len(bad) - 10)
+        for leaf, c in leaves.items():
+            out.count('transv_leaf/n%d/%s' % (n, leaf), c)
+        out.agg = ('transv', n, case['lo'], case['hi'], leaves)
         out.sample = {'kind': 'transv', 'n': n, 'v0': V[case['lo']].tolist(), 'v1': V[-1].tolist()}
     elif kind == 'tbatch':
         n = case['n']
@@ -663,6 +864,86 @@ def run_case(case, out, env):
         report_collisions(out, n, res, 'big')
         out.agg = ('big', n, [(t, k) for t, k in res if k is not None])
         out.sample = {'kind': 'big', 'n': n, 'int_tuple': list(tuples[-1])}
+    elif kind == 'forms':
+        # container / digit types of the tuple: list, numpy integer array, tuple of numpy scalars (np.uint8 where the digits fit)
+        n = case['n']
+        bases = ref_bases(n)
+        tuples = [unrank(bases, r) for r in range(prod(bases))] if n <= 2 else big_alphabet(n, case['G'], env.seed, None)
+        forms = [('list', list), ('int64_array', lambda t: np.array(t, dtype=np.int64)), ('tuple_of_int64', lambda t: tuple(np.int64(d) for d in t)),
+                 ('int32_array', lambda t: np.array(t, dtype=np.int32))]
+        if max(bases) <= 256:   # every digit (and a_n + 1 <= 4^n - 1) is representable
+            forms += [('uint8_array', lambda t: np.array(t, dtype=np.uint8)), ('tuple_of_uint8', lambda t: tuple(np.uint8(d) for d in t))]
+        for t in tuples:
+            out.state()
+            out.trans()
+            try:
+                M = sp.from_int_tuple(tuple(t))
+            except Exception:
+                continue   # reported by check_tuples
+            for name, conv in forms:
+                arg = conv(t)
+                out.trans()
+                out.count('forms/' + name)
+                try:
+                    M2 = core.pure_call(out, 'pure/from_int_tuple', sp.from_int_tuple, arg)
+                except Exception as e:
+                    if core.is_precondition_assert(e):   # the docstring promises tuple[int] only
+                        out.count('rejected_by_precondition/forms/' + name)
+                        continue
+                    _viol(out, 'forms/from_int_tuple/%s/%s' % (name, type(e).__name__), 'from_int_tuple raised %r on the digits %s given as %s' % (e, list(t), name), n=n, int_tuple=list(t), form=name)
+                    continue
+                if not (valid_matrix(M2, n) and np.array_equal(M2, M)):
+                    _viol(out, 'forms/from_int_tuple/%s/ne_tuple_of_int' % name, 'from_int_tuple(digits as %s) != from_int_tuple(tuple of int) for %s' % (name, list(t)), n=n, int_tuple=list(t), form=name, got=M2, expected=M)
+            out.outcome(b'F%d:' % n + pack(M), nontrivial=any(t), pre_digested=True)
+            out.trace()
+        out.sample = {'kind': 'forms', 'n': n, 'forms': [x[0] for x in forms], 'int_tuple': list(tuples[-1])}
+    elif kind == 'closure':
+        # matrices that are NOT literal from_int_tuple outputs of the alphabet: transposes, inverses, products; each handed to
+        # numqi in a non-default memory layout (M.T is a Fortran-ordered view, inverse() returns whatever np.roll produced)
+        n = case['n']
+        mats = closure_alphabet(numqi, out, n, case['G'], env.seed)
+        seen = {}
+        if case['part'] == 'unary':
+            for t, M in mats:
+                what = 'transpose of from_int_tuple(%s)' % (list(t),)
+                ti = check_matrix(numqi, out, n, M.T, 'closure', what, seen)
+                if ti is not None:
+                    check_layouts(numqi, out, n, np.ascontiguousarray(M.T), ti, 'closure', what)
+                what = 'inverse() of from_int_tuple(%s), passed on as returned' % (list(t),)
+                try:
+                    Mi = sp.inverse(M)
+                except Exception:
+                    continue   # reported by check_tuples
+                ti = check_matrix(numqi, out, n, Mi, 'closure', what, seen)
+                if ti is not None:
+                    check_layouts(numqi, out, n, np.ascontiguousarray(Mi), ti, 'closure', what)
+                # find_transvection on non-contiguous 1-D views: the columns of M (stride 2n) against contiguous copies
+                cols = M.T
+                for i in range(2 * n):
+                    j = (i + 1) % (2 * n)
+                    out.trans(2)
+                    try:
+                        h_view = core.pure_call(out, 'pure/find_transvection', sp.find_transvection, M[:, i], M[:, j])
+                        h_copy = sp.find_transvection(M[:, i].copy(), M[:, j].copy())
+                    except Exception as e:
+                        _viol(out, 'closure/find_transvection/%s' % type(e).__name__, 'find_transvection raised %r on two columns of a symplectic matrix' % (e,), n=n, matrix=M, i=i, j=j)
+                        continue
+                    y = ref_transvection(ref_transvection(cols[i], h_view[0]), h_view[1])
+                    if not (np.array_equal(h_view, h_copy) and np.array_equal(y, cols[j])):
+                        _viol(out, 'closure/find_transvection/depends_on_memory_layout', 'find_transvection on strided column views differs from the call on contiguous copies or does not map column i to column j',
+                              n=n, matrix=M, i=i, j=j, got=h_view, contiguous=h_copy)
+        else:
+            K, k = case['K'], case['k']
+            for i in range(k, len(mats), K):
+                Mi64 = mats[i][1].astype(np.int64)
+                for j in range(len(mats)):
+                    Xc = ((Mi64 @ mats[j][1].astype(np.int64)) % 2).astype(np.uint8)
+                    how = LAYOUTS[(i + j) % len(LAYOUTS)]
+                    what = 'product from_int_tuple(%s) . from_int_tuple(%s) mod 2, layout %s' % (list(mats[i][0]), list(mats[j][0]), how)
+                    ti = check_matrix(numqi, out, n, relayout(Xc, how), 'closure', what, seen)
+                    if ti is not None:
+                        check_layouts(numqi, out, n, Xc, ti, 'closure', what)
+        out.sample = {'kind': 'closure', 'n': n, 'part': case['part'], 'alphabet_matrices': len(mats)}
     else:
         raise ValueError(kind)
 
@@ -676,11 +957,30 @@ def finalize(aggs, out, env):
     sp = numqi.group.spf2
     by_n = {}
     big = {}
+    tleaf = {}
     for _, a in aggs:
-        if a[0] == 'tuples':
+        if a[0] == 'transv':
+            d = tleaf.setdefault(a[1], {'rows': 0, 'leaves': {}})
+            d['rows'] += a[3] - a[2]
+            for leaf, c in a[4].items():
+                d['leaves'][leaf] = d['leaves'].get(leaf, 0) + c
+        elif a[0] == 'tuples':
             by_n.setdefault(a[1], []).append(a[2:])
         elif a[0] == 'big':
             big.setdefault(a[1], []).extend(a[2])
+    # vacuity guard: the complete set of ordered pairs of one n reaches every leaf of the Lemma-2 case distinction
+    # (labels computed from the inputs alone; what numqi answers on each pair is judged in the cases)
+    for n in sorted(tleaf):
+        d = tleaf[n]
+        if d['rows'] != 4**n - 1:
+            out.count('finalize_incomplete_transv_n%d' % n)
+            continue
+        out.state()
+        missing = [x for x in TRANSV_LEAVES[n] if d['leaves'].get(x, 0) == 0]
+        unknown = [x for x in d['leaves'] if x not in TRANSV_LEAVES[n]]
+        out.check(not missing and not unknown, 'transv/find_transvection/lemma2_leaf_not_reached', 'the enumeration of all ordered pairs for n=%d never reached the Lemma-2 leaves %s (unknown labels: %s)' % (n, missing, unknown), n=n, reached=d['leaves'])
+        out.check(sum(d['leaves'].values()) == (4**n - 1)**2, 'transv/enumeration/pair_count', '%d of %d ordered pairs were enumerated' % (sum(d['leaves'].values()), (4**n - 1)**2), n=n)
+        out.outcome(('transv_leaves', n, tuple(sorted(d['leaves'].items()))), nontrivial=True)
     expected_total = {3: (1451520 if env.tier == 'thorough' else len(n3_quick_outer()) * 720)}
     for n in sorted(by_n):
         bases = ref_bases(n)
